@@ -13,6 +13,7 @@ import copy
 import hashlib
 import json
 import os
+import re
 import pickle
 import shutil
 import subprocess
@@ -185,7 +186,7 @@ def _check_own_store(path):
 
     # probed with a trivial module of its own: a loader that chokes on a particular *program* is a
     # violation, not a format change
-    probe = path + ".format-probe"
+    probe = os.path.join(os.path.dirname(path), "FormatProbe__.nslir")
     try:
         with core.Quiet():
             pm = Compiler.Compiler().Compile("export function probe__(int a) -> int { return a; }")
@@ -208,6 +209,16 @@ def _run_child(argv, cwd, hs, tree, timeout=90):
     except subprocess.TimeoutExpired:
         return None, "", "timeout"
     return p.returncode, p.stdout, p.stderr
+
+
+def _snapshot(store):
+    """Module files at the top of the store: name -> (mtime_ns, size)."""
+    out = {}
+    for e in os.scandir(store):
+        if e.is_file() and not e.name.endswith(".nsl"):
+            s_ = e.stat()
+            out[e.name] = (s_.st_mtime_ns, s_.st_size)
+    return out
 
 
 def _stats_of(stderr):
@@ -335,6 +346,12 @@ def _execute(sc, root, want_texts):
             os.makedirs(srcdir, exist_ok=True)
             with open(os.path.join(srcdir, base + ".nsl"), "w") as f:
                 f.write(src)
+            if "import " in src and layout in ("subdir", "prepared"):
+                # whether imports are looked up in the working directory or next to the source file is
+                # the tool's policy, not C17's: the libraries are in both places
+                for n_ in needed:
+                    shutil.copy(os.path.join(store, n_ + ".nslir"),
+                                os.path.join(store, "src" if layout == "subdir" else "prepared", n_ + ".nslir"))
             src_arg = {"flat": base + ".nsl", "subdir": os.path.join("src", base + ".nsl"),
                        "abs": os.path.join(store, base + ".nsl"), "abs-out": base + ".nsl",
                        # a source file that has been lying around since before anything was built
@@ -350,6 +367,7 @@ def _execute(sc, root, want_texts):
                     json.dump(ioplan, f)
                 argv = [BOOT, iop, os.path.join(tree, "nslc.py")] + (["-O", "1"] if opt else []) + [
                     "-o", out_arg, src_arg]
+                before = _snapshot(store)
                 code, out, err = _run_child(argv, store, st["hs"], tree)
                 bump("writer_processes")
                 s = _stats_of(err)
@@ -365,7 +383,19 @@ def _execute(sc, root, want_texts):
                     continue
                 if code is None:
                     return done("harness-error", "child", f"writer timed out at step {si}")
+                if code < 0 or "MemoryError" in (err or "") or "Errno 28" in (err or ""):
+                    # killed by a signal / out of memory / scratch file system full, with no fault injected:
+                    # the environment, not the product
+                    return done("harness-error", "child", f"writer at step {si} died of its environment "
+                                                          f"(exit {code}): {(err or '')[-200:]}")
                 ok = code == 0 and wrote
+                if ok:
+                    # the file that was really written is the one the model speaks about (a tool that
+                    # completes a suffix-less -o name writes another file than the one named)
+                    changed = [fn for fn, sig in _snapshot(store).items() if before.get(fn) != sig]
+                    if name not in changed and len(changed) == 1:
+                        bump("writer_wrote_another_file_than_named")
+                        name = changed[0]
             else:
                 os.chdir(store)
                 m, status = _compile_inproc(src, opt)
@@ -594,21 +624,27 @@ def _nslr_reads(sc, st, si, plan_names, model, store, cwd, tree, log, bump):
                     if code is None:
                         raise core.HarnessError(f"nslr.py did not finish within its time limit (step {si}, {target})")
                     lines = [l for l in (out or "").splitlines() if l.strip()]
+                    if code < 0:
+                        raise core.HarnessError(f"nslr.py was killed by signal {-code} (step {si}, {target})")
                     if code == 0:
                         last = lines[-1] if lines else ""
-                        # the two commands differ in their MODULE argument only
-                        for tok in sorted({target, os.path.basename(target), os.path.splitext(os.path.basename(target))[0],
+                        # the two commands differ in their MODULE argument only; two normalisations (with
+                        # and without the bare stem, which may also occur inside unrelated words)
+                        for tok in sorted({target, os.path.basename(target),
                                            os.path.abspath(os.path.join(cwd, target))}, key=len, reverse=True):
                             if tok:
                                 last = last.replace(tok, "<MODULE>")
-                        outs.append(["ok", last])
+                        stem = os.path.splitext(os.path.basename(target))[0]
+                        last2 = re.sub(r"(?<![A-Za-z0-9_])" + re.escape(stem) + r"(?![A-Za-z0-9_])", "<MODULE>", last) if stem else last
+                        outs.append(["ok", last, last2])
                     else:
                         last = (err or "").strip().splitlines()[-1] if (err or "").strip() else ""
                         outs.append(["fail", last.split(":")[0].split(".")[-1]])
                 bump("nslr_reads")
                 log.add("nslr", name=key, fn=fname, got=outs[0])
                 n += 1
-                if outs[0] != outs[1]:
+                if not (outs[0] == outs[1] or (outs[0][0] == "ok" == outs[1][0]
+                                                and (outs[0][1] == outs[1][1] or outs[0][2] == outs[1][2]))):
                     return (
                         "violation",
                         "nslr-differs",
